@@ -1,8 +1,9 @@
 /-
   OFV.Lemmas.RTHello — hello elements and Hello through Parse: the version-bitmap decoder reads the bitmaps up to the
   element's own Length (`helloElem_decode`), the element loop advances by the Length rounded up to 8 (`hello_loop`);
-  a Hello with any number of version-bitmap elements round-trips when every element but the last has a Length that
-  is a multiple of 8 (`hello_rt`).  Used by OFV/Props/C05.lean.
+  the encoder stores Length = 4 + 4·#bitmaps in every element and pads it with zeros to a multiple of 8
+  (`helloElem_encode`); a Hello with any number of version-bitmap elements, each with any number of bitmaps, round-trips
+  (`hello_rt`).  Used by OFV/Props/C05.lean.
 -/
 import OFV.Model.All
 import OFV.Lemmas.Size
@@ -142,70 +143,98 @@ theorem words_pieces (ws : List Nat) :
       · trivial
       · exact h3 p hp
 
-/-- encoding of a version-bitmap element with bitmaps `ws` (its header Length field `l` is written as it is) -/
-theorem helloElem_encode (t l : Nat) (ws : List Nat) (hk : 4 + 4 * ws.length < 65536) :
-    let e := V.obj "HelloElemVersionBitmap" [.obj "HelloElemHeader" [.num t, .num l], .list (ws.map V.num)]
-    HelloElemVersionBitmap.marshalM e = .ok (be16 (n16 t) ++ be16 (n16 l) ++ wordsBytes ws, e) ∧
-    HelloElemVersionBitmap.len e = .ok (UInt16.ofNat (4 + 4 * ws.length)) := by
-  intro e
-  have hlen : HelloElemVersionBitmap.len e = .ok (UInt16.ofNat (4 + 4 * ws.length)) := by
-    simp only [e, HelloElemVersionBitmap.len, List.length_map]
-    congr 1
-    apply UInt16.toNat_inj.mp
+/-- padding behind a version-bitmap element with `n` bitmaps: 4 + 4n rounded up to a multiple of 8, minus 4 + 4n -/
+def helloPad (n : Nat) : Nat := (4 + 4 * n + 7) / 8 * 8 - (4 + 4 * n)
+
+theorem helloPad_eq (n : Nat) : 4 + 4 * n + helloPad n = (4 + 4 * n + 7) / 8 * 8 := by
+  unfold helloPad; omega
+
+/-- encoding of a version-bitmap element with bitmaps `ws`: whatever Length `l` is stored in its header, the encoder stores
+    4 + 4·#ws there, and pads the element with zeros to a multiple of 8 -/
+theorem helloElem_encode (t l : Nat) (ws : List Nat) (hk : 4 + 4 * ws.length + 7 < 65536) :
+    HelloElemVersionBitmap.marshalM
+        (.obj "HelloElemVersionBitmap" [.obj "HelloElemHeader" [.num t, .num l], .list (ws.map V.num)]) =
+      .ok (be16 (n16 t) ++ be16 (n16 (4 + 4 * ws.length)) ++ wordsBytes ws ++ zeros (helloPad ws.length),
+           .obj "HelloElemVersionBitmap" [.obj "HelloElemHeader" [.num t, .num (4 + 4 * ws.length)], .list (ws.map V.num)]) ∧
+    HelloElemVersionBitmap.len
+        (.obj "HelloElemVersionBitmap" [.obj "HelloElemHeader" [.num t, .num l], .list (ws.map V.num)]) =
+      .ok (UInt16.ofNat ((4 + 4 * ws.length + 7) / 8 * 8)) := by
+  have h4 : ((4 : UInt16) + n16 ((ws.map V.num).length * 4)).toNat = 4 + 4 * ws.length := by
     rw [UInt16.toNat_add]
     simp [n16, UInt16.toNat_ofNat']
     omega
+  have hlen : HelloElemVersionBitmap.len
+      (.obj "HelloElemVersionBitmap" [.obj "HelloElemHeader" [.num t, .num l], .list (ws.map V.num)]) =
+      .ok (UInt16.ofNat ((4 + 4 * ws.length + 7) / 8 * 8)) := by
+    simp only [HelloElemVersionBitmap.len]
+    congr 1
+    apply UInt16.toNat_inj.mp
+    rw [UInt16.toNat_mul, UInt16.toNat_div, UInt16.toNat_add, h4]
+    simp [UInt16.toNat_ofNat']
+    omega
   refine ⟨?_, hlen⟩
   obtain ⟨h1, h2, h3⟩ := words_pieces ws
-  have hto : (UInt16.ofNat (4 + 4 * ws.length)).toNat = 4 + 4 * ws.length := by
+  have hto : (UInt16.ofNat ((4 + 4 * ws.length + 7) / 8 * 8)).toNat = (4 + 4 * ws.length + 7) / 8 * 8 := by
     simp [UInt16.toNat_ofNat']; omega
-  have hpl : piecesLen (pCopy (be16 (n16 t) ++ be16 (n16 l)) :: (ws.map V.num).map (fun b => pU32 b.asNat)) = 4 + 4 * ws.length := by
+  have hpl : piecesLen (pCopy (be16 (n16 t) ++ be16 (n16 (4 + 4 * ws.length))) :: (ws.map V.num).map (fun b => pU32 b.asNat))
+      = 4 + 4 * ws.length := by
     simp only [piecesLen, List.map_cons, List.sum_cons] at h1 ⊢
     rw [h1]; rfl
-  have hpb : piecesBytes (pCopy (be16 (n16 t) ++ be16 (n16 l)) :: (ws.map V.num).map (fun b => pU32 b.asNat))
-      = be16 (n16 t) ++ be16 (n16 l) ++ wordsBytes ws := by
+  have hpb : piecesBytes (pCopy (be16 (n16 t) ++ be16 (n16 (4 + 4 * ws.length))) :: (ws.map V.num).map (fun b => pU32 b.asNat))
+      = be16 (n16 t) ++ be16 (n16 (4 + 4 * ws.length)) ++ wordsBytes ws := by
     simp only [piecesBytes, List.map_cons, List.flatten_cons] at h2 ⊢
     rw [h2]; rfl
-  unfold HelloElemVersionBitmap.marshalM
-  simp only [e, hlen, Res.bind_ok, HelloElemHeader.bytes, hto]
-  have := fill_exact' (pCopy (be16 (n16 t) ++ be16 (n16 l)) :: (ws.map V.num).map (fun b => pU32 b.asNat))
+  have hfill := fill_exact ((4 + 4 * ws.length + 7) / 8 * 8)
+    (pCopy (be16 (n16 t) ++ be16 (n16 (4 + 4 * ws.length))) :: (ws.map V.num).map (fun b => pU32 b.asNat))
     (by intro p hp; simp only [List.mem_cons] at hp; rcases hp with rfl | hp; exact trivial; exact h3 p hp)
-  rw [hpl, hpb] at this
-  simp only [e] at hlen
-  simp only [hlen, Res.bind_ok, hto, this, same]
+    (by rw [hpl]; omega)
+  rw [hpl, hpb] at hfill
+  unfold HelloElemVersionBitmap.marshalM
+  simp only [hlen, Res.bind_ok, HelloElemHeader.bytes, hto, V.u16, h4, hfill, helloPad]
 
 
 /-- a version-bitmap element with bitmaps `ws` and the matching Length 4 + 4·#ws -/
 def helloElemV (ws : List Nat) : V :=
   .obj "HelloElemVersionBitmap" [.obj "HelloElemHeader" [.num 1, .num (4 + 4 * ws.length)], .list (ws.map V.num)]
-def helloElemBytes (ws : List Nat) : Bytes := be16 (n16 1) ++ be16 (n16 (4 + 4 * ws.length)) ++ wordsBytes ws
+/-- its encoding: header, bitmaps, zero padding to a multiple of 8 -/
+def helloElemBytes (ws : List Nat) : Bytes :=
+  be16 (n16 1) ++ be16 (n16 (4 + 4 * ws.length)) ++ wordsBytes ws ++ zeros (helloPad ws.length)
 def helloV (ver ln xid : Nat) (wss : List (List Nat)) : V :=
   .obj "Hello" [.obj "Header" [.num ver, .num 0, .num ln, .num xid], .list (wss.map helloElemV)]
 def helloBody (wss : List (List Nat)) : Bytes := (wss.map helloElemBytes).flatten
 
-theorem helloElemBytes_length (ws : List Nat) : (helloElemBytes ws).length = 4 + 4 * ws.length := by
-  simp only [helloElemBytes, List.length_append, be16_length, wordsBytes_length]
-
-/-- every element except the last has a Length that is a multiple of 8 (an odd number of bitmaps): the encoder does not pad,
-    the decoder advances by the Length rounded up to 8 -/
-def PadOK : List (List Nat) → Prop
-  | [] => True
-  | [_] => True
-  | ws :: rest => (4 + 4 * ws.length) % 8 = 0 ∧ PadOK rest
+theorem helloElemBytes_length (ws : List Nat) : (helloElemBytes ws).length = (4 + 4 * ws.length + 7) / 8 * 8 := by
+  simp only [helloElemBytes, List.length_append, be16_length, wordsBytes_length, zeros_length, helloPad]
+  omega
 
 def ElemsOK (wss : List (List Nat)) : Prop := ∀ ws ∈ wss, (∀ w ∈ ws, w < 4294967296) ∧ 4 + 4 * ws.length < 65536
 
-theorem body_len_ge (wss : List (List Nat)) : 4 * wss.length ≤ (helloBody wss).length := by
+/-- every element, padding included, fits a 16-bit length -/
+def ElemsFit (wss : List (List Nat)) : Prop := ∀ ws ∈ wss, 4 + 4 * ws.length + 7 < 65536
+
+theorem body_len_ge (wss : List (List Nat)) : 8 * wss.length ≤ (helloBody wss).length := by
   induction wss with
   | nil => simp [helloBody]
   | cons ws rest ih =>
     simp only [helloBody, List.map_cons, List.flatten_cons, List.length_append, helloElemBytes_length, List.length_cons] at ih ⊢
     omega
 
-/-- the element loop of Hello.UnmarshalBinary, the buffer ending with the last element -/
+theorem elemsFit_of_body (wss : List (List Nat)) (hk : 8 + (helloBody wss).length < 65536) : ElemsFit wss := by
+  induction wss with
+  | nil => intro ws h; simp at h
+  | cons ws rest ih =>
+    simp only [helloBody, List.map_cons, List.flatten_cons, List.length_append, helloElemBytes_length] at hk
+    intro x hx
+    simp only [List.mem_cons] at hx
+    rcases hx with rfl | hx
+    · omega
+    · exact ih (by simp only [helloBody]; omega) x hx
+
+/-- the element loop of Hello.UnmarshalBinary: every element is padded to a multiple of 8, the cursor (advancing by the
+    Length rounded up to 8) lands on the next element and, behind the last one, on the end of the buffer -/
 theorem hello_loop (data : Slice) (hd : data.WF) (wss : List (List Nat)) :
     ∀ (pre : Bytes) (acc : List V) (fuel : Nat),
-      data.bytes = pre ++ helloBody wss → ElemsOK wss → PadOK wss → wss.length < fuel →
+      data.bytes = pre ++ helloBody wss → ElemsOK wss → wss.length < fuel →
       ∃ n, goLoop (σ := Hello.St) fuel (fun s => s.next < data.len) (·.next)
         (fun s => do
           let d ← data.fromR s.next
@@ -223,16 +252,16 @@ theorem hello_loop (data : Slice) (hd : data.WF) (wss : List (List Nat)) :
       = .ok { next := n, elems := acc ++ wss.map helloElemV, err := false } := by
   induction wss with
   | nil =>
-    intro pre acc fuel hb _ _ hfuel
+    intro pre acc fuel hb _ hfuel
     have hl : data.len = pre.length := by
       rw [← Slice.bytes_length data hd, hb]; simp [helloBody]
     cases fuel with
     | zero => simp at hfuel
     | succ k => exact ⟨pre.length, by simp [goLoop, hl]⟩
   | cons ws rest ih =>
-    intro pre acc fuel hb hok hpad hfuel
+    intro pre acc fuel hb hok hfuel
     obtain ⟨hws, hk⟩ := hok ws (by simp)
-    have hl : data.len = pre.length + ((4 + 4 * ws.length) + (helloBody rest).length) := by
+    have hl : data.len = pre.length + ((4 + 4 * ws.length + 7) / 8 * 8 + (helloBody rest).length) := by
       rw [← Slice.bytes_length data hd, hb]
       simp only [helloBody, List.map_cons, List.flatten_cons, List.length_append, helloElemBytes_length]
     cases fuel with
@@ -240,49 +269,36 @@ theorem hello_loop (data : Slice) (hd : data.WF) (wss : List (List Nat)) :
     | succ k =>
       obtain ⟨d, hd1, hd2, _, _⟩ := Slice.fromR_bytes data pre.length (by omega)
       have hdwf : d.WF := (Slice.fromR_wf data hd _ d hd1).1
-      have hdb : d.bytes = be16 (n16 1) ++ be16 (n16 (4 + 4 * ws.length)) ++ wordsBytes ws ++ helloBody rest := by
+      have hdb : d.bytes = be16 (n16 1) ++ be16 (n16 (4 + 4 * ws.length)) ++ wordsBytes ws ++
+          (zeros (helloPad ws.length) ++ helloBody rest) := by
         rw [hd2, hb, List.drop_left' rfl]
-        simp only [helloBody, List.map_cons, List.flatten_cons, helloElemBytes]
+        simp only [helloBody, List.map_cons, List.flatten_cons, helloElemBytes, List.append_assoc]
       have hEH := helloElemHeader_unmarshal HelloElemHeader.new d hdwf 1 (4 + 4 * ws.length) (by decide) hk
-        (wordsBytes ws ++ helloBody rest) (by rw [hdb]; simp only [List.append_assoc])
-      have hEV := helloElem_decode HelloElemVersionBitmap.new d hdwf 1 (by decide) ws hws hk (helloBody rest) hdb
+        (wordsBytes ws ++ (zeros (helloPad ws.length) ++ helloBody rest)) (by rw [hdb]; simp only [List.append_assoc])
+      have hEV := helloElem_decode HelloElemVersionBitmap.new d hdwf 1 (by decide) ws hws hk
+        (zeros (helloPad ws.length) ++ helloBody rest) hdb
       unfold goLoop
       have hc1 : decide (pre.length < data.len) = true := by simp; omega
       have hlt : ¬ (4 + 4 * ws.length < 4) := by omega
       simp only [hc1, if_true, hd1, Res.bind_ok, hEH, hlt, if_false, hEV, Res.pure_eq]
       have hcur : ¬ (pre.length + (4 + 4 * ws.length + 7) / 8 * 8 ≤ pre.length) := by omega
       simp only [hcur, if_false]
-      cases rest with
-      | nil =>
-        -- last element: the cursor reaches or passes the end of the buffer
-        cases k with
-        | zero => simp at hfuel
-        | succ k' =>
-          refine ⟨pre.length + (4 + 4 * ws.length + 7) / 8 * 8, ?_⟩
-          unfold goLoop
-          have hc2 : decide (pre.length + (4 + 4 * ws.length + 7) / 8 * 8 < data.len) = false := by
-            simp [helloBody] at hl ⊢; omega
-          simp only [hc2, Bool.false_eq_true, if_false, List.map_cons, List.map_nil, helloElemV]
-      | cons ws2 rest2 =>
-        have hp : (4 + 4 * ws.length) % 8 = 0 ∧ PadOK (ws2 :: rest2) := hpad
-        have hadv : (4 + 4 * ws.length + 7) / 8 * 8 = 4 + 4 * ws.length := by omega
-        rw [hadv]
-        obtain ⟨n, hn⟩ := ih (pre ++ helloElemBytes ws) (acc ++ [helloElemV ws]) k
-          (by rw [hb]; simp [helloBody]) (fun x hx => hok x (by simp [hx])) hp.2
-          (by simp only [List.length_cons] at hfuel ⊢; omega)
-        refine ⟨n, ?_⟩
-        simp only [List.length_append, helloElemBytes_length, List.append_assoc, List.cons_append, List.nil_append] at hn
-        simp only [List.map_cons, helloElemV] at hn ⊢
-        exact hn
+      obtain ⟨n, hn⟩ := ih (pre ++ helloElemBytes ws) (acc ++ [helloElemV ws]) k
+        (by rw [hb]; simp [helloBody]) (fun x hx => hok x (by simp [hx]))
+        (by simp only [List.length_cons] at hfuel ⊢; omega)
+      refine ⟨n, ?_⟩
+      simp only [List.length_append, helloElemBytes_length, List.append_assoc, List.cons_append, List.nil_append] at hn
+      simp only [List.map_cons, helloElemV] at hn ⊢
+      exact hn
 
-theorem hello_mapM2 (wss : List (List Nat)) (hok : ElemsOK wss) :
+theorem hello_mapM2 (wss : List (List Nat)) (hok : ElemsFit wss) :
     mapM2 HelloElem.lenM (wss.map helloElemV) =
       .ok ((wss.map helloElemBytes).map (fun e => UInt16.ofNat e.length), wss.map helloElemV) ∧
     mapM2 HelloElem.marshalM (wss.map helloElemV) = .ok (wss.map helloElemBytes, wss.map helloElemV) := by
   induction wss with
   | nil => exact ⟨rfl, rfl⟩
   | cons ws rest ih =>
-    obtain ⟨_, hk⟩ := hok ws (by simp)
+    have hk := hok ws (by simp)
     obtain ⟨i1, i2⟩ := ih (fun x hx => hok x (by simp [hx]))
     obtain ⟨hem, hel⟩ := helloElem_encode 1 (4 + 4 * ws.length) ws hk
     constructor
@@ -294,12 +310,12 @@ theorem hello_mapM2 (wss : List (List Nat)) (hok : ElemsOK wss) :
       rw [i2]
       simp only [Res.bind_ok, helloElemBytes]
 
-theorem body_sum (wss : List (List Nat)) (hok : ElemsOK wss) :
+theorem body_sum (wss : List (List Nat)) (hok : ElemsFit wss) :
     (((wss.map helloElemBytes).map (fun e => UInt16.ofNat e.length)).map UInt16.toNat).sum = (helloBody wss).length := by
   induction wss with
   | nil => rfl
   | cons ws rest ih =>
-    obtain ⟨_, hk⟩ := hok ws (by simp)
+    have hk := hok ws (by simp)
     have hto : (UInt16.ofNat (helloElemBytes ws).length).toNat = (helloElemBytes ws).length := by
       rw [helloElemBytes_length]; simp [UInt16.toNat_ofNat']; omega
     simp only [List.map_cons, List.sum_cons, helloBody, List.flatten_cons, List.length_append, hto]
@@ -308,14 +324,15 @@ theorem body_sum (wss : List (List Nat)) (hok : ElemsOK wss) :
 
 /-- Hello with any number of version-bitmap elements through Parse, the buffer holding exactly the message -/
 theorem hello_rt (ver xid : Nat) (wss : List (List Nat)) (hver : ver < 256) (hxid : xid < 4294967296)
-    (hok : ElemsOK wss) (hpad : PadOK wss) (hk : 8 + (helloBody wss).length < 65536) :
+    (hok : ElemsOK wss) (hk : 8 + (helloBody wss).length < 65536) :
     let bs := [n8 ver, n8 0] ++ be16 (n16 (8 + (helloBody wss).length)) ++ be32 (n32 xid) ++ helloBody wss
     (∀ ln0, Hello.marshalM (helloV ver ln0 xid wss) = .ok (bs, helloV ver (8 + (helloBody wss).length) xid wss)) ∧
     ∀ (depth : Nat) (data : Slice), data.WF → data.bytes = bs →
       parse depth data = .ok (helloV ver (8 + (helloBody wss).length) xid wss) := by
   intro bs
-  obtain ⟨hml, hmm⟩ := hello_mapM2 wss hok
-  have hsum := body_sum wss hok
+  have hfit := elemsFit_of_body wss hk
+  obtain ⟨hml, hmm⟩ := hello_mapM2 wss hfit
+  have hsum := body_sum wss hfit
   have h8 : ((8 : UInt16) + sum16 ((wss.map helloElemBytes).map (fun e => UInt16.ofNat e.length))).toNat
       = 8 + (helloBody wss).length := by
     rw [UInt16.toNat_add, sum16_toNat _ (by rw [hsum]; omega), hsum]
@@ -369,7 +386,7 @@ theorem hello_rt (ver xid : Nat) (wss : List (List Nat)) (hver : ver < 256) (hxi
     have hh := hdec Header.zero d0 _ hd0 (by rw [h02, hb']; rfl)
     have hcnt := body_len_ge wss
     obtain ⟨n, hloop⟩ := hello_loop data hd wss ([n8 ver, n8 0] ++ be16 (n16 (8 + (helloBody wss).length)) ++ be32 (n32 xid)) []
-      (data.len + 1) hb' hok hpad (by omega)
+      (data.len + 1) hb' hok (by omega)
     simp only [List.length_append, be16_length, be32_length, List.length_cons, List.length_nil, List.nil_append,
       Nat.reduceAdd] at hloop
     simp only [h01, Res.bind_ok, hh]
